@@ -1,5 +1,5 @@
-(* Proofs/ViewOps.v -- the invariant of the View, the guards that isolate the two findings, the meaning of
-   the notifications, and the composite functions _refilter, set_order, _OrderKey.refresh. *)
+(* Proofs/ViewOps.v -- the invariant of the View, the meaning of the notifications, and the composite
+   functions regen/_base_add, _refilter, set_order (key part), _OrderKey.refresh. *)
 From Coq Require Import List Bool Arith NArith ZArith Lia Permutation Sorted.
 From MV Require Import Base.Bytes Model.View Proofs.ViewBase Proofs.ViewSpec Proofs.ViewPrim.
 Import ListNotations.
@@ -7,13 +7,8 @@ Import ListNotations.
 Record Inv (s : state) : Prop := {
   i_core : CoreV s; i_sids : SidsOk s; i_focus : FocusOk s; i_m1 : M1 s; i_m2 : M2 s }.
 
-(* the complement of finding stale-order-key: an update never leaves an outdated cached key behind *)
-Definition fresh_ok (s : state) (o : op) : Prop :=
-  match o with
-  | Update f => In (fid f) (store s) -> forall o' k, cache_of s (fid f) o' = Some k -> k <> generate o' f ->
-                o' = okey s /\ In (fid f) (raw_ids s) /\ shows s f = true
-  | _ => True
-  end.
+(* the key under which a shown flow is filed is its current key for the selected order *)
+Definition FreshV (s : state) : Prop := forall k id, In (k, id) (view s) -> k = generate (okey s) (attr s id).
 
 (* what a listener can conclude from the signals of one call: starting from the shown ids [l] it arrives
    at the shown ids [l'] (as a set; position is given for removals) *)
@@ -28,15 +23,17 @@ Inductive notif : list N -> list sig -> list N -> Prop :=
 | n_srefresh l evs l' : notif l evs l' -> notif l (StoreRefresh :: evs) l'.
 
 (* ---------- transport ---------- *)
-Lemma Inv_transfer s s' : updm s s' -> view s' = view s -> FocusOk s' -> Inv s -> Inv s'.
+Lemma Inv_transfer s s' : upd s s' -> CoreV s' -> view s' = view s -> FocusOk s' -> Inv s -> Inv s'.
 Proof.
-  intros U V F [A B C D E]. pose proof (u_cfg _ _ (um_upd _ _ U)) as Cf. constructor.
-  - eapply CoreV_updm; eauto.
-  - eapply Sids_upd; [apply (um_upd _ _ U) | exact B].
+  intros U C' V F [A B C D E]. pose proof (u_cfg _ _ U) as Cf. constructor.
+  - exact C'.
+  - eapply Sids_upd; [exact U | exact B].
   - exact F.
   - eapply M1_cfg; eauto.
   - eapply M2_cfg; eauto.
 Qed.
+Lemma FreshV_cfg s s' : cfg_eq s s' -> view s' = view s -> FreshV s -> FreshV s'.
+Proof. intros C V H k id Hin. rewrite V in Hin. rewrite (ce_okey _ _ C), (attr_cfg _ _ id C). apply H. exact Hin. Qed.
 
 Lemma sent_CoreV e s s' : sent e s s' -> CoreV s -> CoreV s'.
 Proof. intros [U V _]. apply CoreV_updm; assumption. Qed.
@@ -53,6 +50,109 @@ Proof.
     apply (IH (done ++ [x])); [rewrite <- app_assoc; exact E | exact H1].
 Qed.
 
+(* writing one fresh key into the settings entry obtained from Settings.__getitem__ *)
+Lemma setkey_facts o id v c s s1 : In id (store s) -> ext s s1 -> sget (settings s1) id = Some c ->
+  (forall o', cget o' c = cache_of s id o') -> (forall id' o', cache_of s1 id' o' = cache_of s id' o') ->
+  v = generate o (attr s id) ->
+  let s' := set_settings (sset (settings s1) id (cset o v c)) s1 in
+  upd s s' /\ cache_of s' id o = Some v
+  /\ (forall id' o', id' <> id \/ o' <> o -> cache_of s' id' o' = cache_of s id' o').
+Proof.
+  intros Hst X1 Hs1 Hc1 Same1 Hv s'. subst v.
+  pose proof (um_upd _ _ (e_updm _ _ X1)) as U1. pose proof (u_cfg _ _ U1) as Cf1.
+  assert (Q : forall id' o', cache_of s' id' o'
+              = if N.eqb id id' then (if order_eqb o' o then Some (generate o (attr s id)) else cache_of s id o')
+                else cache_of s1 id' o').
+  { intros id' o'. unfold s'. rewrite cache_of_sset. destruct (N.eqb id id'); [|reflexivity]. rewrite cget_cset, Hc1. reflexivity. }
+  split; [|split].
+  - constructor.
+    + destruct Cf1; constructor; assumption.
+    + intros id' o' k. rewrite Q. destruct (N.eqb id id') eqn:Ee.
+      * apply N.eqb_eq in Ee. subst id'. destruct (order_eqb o' o) eqn:Eo; [|auto].
+        apply order_eqb_eq in Eo. subst. intros [= <-]. auto.
+      * rewrite Same1. auto.
+    + intros id' H. unfold settings_ids, s' in H. simpl in H. apply sset_ids in H. destruct H as [->|H]; [auto|].
+      apply (u_ids _ _ U1). exact H.
+  - rewrite Q, N.eqb_refl. replace (order_eqb o o) with true by (symmetry; apply order_eqb_eq; reflexivity). reflexivity.
+  - intros id' o' Hne. rewrite Q. destruct (N.eqb id id') eqn:Ee.
+    + apply N.eqb_eq in Ee. subst id'. destruct (order_eqb o' o) eqn:Eo; [|reflexivity].
+      apply order_eqb_eq in Eo. destruct Hne; congruence.
+    + apply Same1.
+Qed.
+
+(* ---------- regen: settings[f][key name] = generate(f) ---------- *)
+Lemma regen_spec o id s : In id (store s) ->
+  exists s', regen o id s = Ok (tt, s') /\ upd s s' /\ view s' = view s /\ focus s' = focus s /\ log s' = log s
+  /\ cache_of s' id o = Some (generate o (attr s id))
+  /\ (forall id' o', id' <> id \/ o' <> o -> cache_of s' id' o' = cache_of s id' o').
+Proof.
+  intros Hst. unfold regen. msimp.
+  destruct (settings_getitem_spec id s Hst) as (c & s1 & E1 & X1 & Hs1 & Hc1 & Same1).
+  rewrite (bind_ok _ _ _ _ _ E1). unfold modify. eexists. split; [reflexivity|].
+  pose proof (um_upd _ _ (e_updm _ _ X1)) as U1. pose proof (u_cfg _ _ U1) as Cf1.
+  assert (Q : forall id' o', cache_of (set_settings (sset (settings s1) id (cset o (generate o (attr s id)) c)) s1) id' o'
+              = if N.eqb id id' then (if order_eqb o' o then Some (generate o (attr s id)) else cache_of s id o')
+                else cache_of s1 id' o').
+  { intros id' o'. rewrite cache_of_sset. destruct (N.eqb id id'); [|reflexivity]. rewrite cget_cset, Hc1. reflexivity. }
+  split; [|split; [apply (e_view _ _ X1) | split; [apply (e_focus _ _ X1) | split; [apply (e_log _ _ X1) | split]]]].
+  - constructor.
+    + destruct Cf1; constructor; assumption.
+    + intros id' o' k. rewrite Q. destruct (N.eqb id id') eqn:Ee.
+      * apply N.eqb_eq in Ee. subst id'. destruct (order_eqb o' o) eqn:Eo; [|auto].
+        apply order_eqb_eq in Eo. subst. intros [= <-]. auto.
+      * rewrite Same1. auto.
+    + intros id' H. unfold settings_ids in H. simpl in H. apply sset_ids in H. destruct H as [->|H]; [auto|].
+      apply (u_ids _ _ U1). exact H.
+  - rewrite Q, N.eqb_refl. replace (order_eqb o o) with true by (symmetry; apply order_eqb_eq; reflexivity). reflexivity.
+  - intros id' o' Hne. rewrite Q. destruct (N.eqb id id') eqn:Ee.
+    + apply N.eqb_eq in Ee. subst id'. destruct (order_eqb o' o) eqn:Eo; [|reflexivity].
+      apply order_eqb_eq in Eo. destruct Hne; congruence.
+    + apply Same1.
+Qed.
+
+Lemma CoreV_regen s s' id o : CoreV s -> upd s s' -> view s' = view s ->
+  (forall id' o', id' <> id \/ o' <> o -> cache_of s' id' o' = cache_of s id' o') ->
+  (~ In id (raw_ids s) \/ o <> okey s) -> CoreV s'.
+Proof.
+  intros C U V Same Hn. pose proof (u_cfg _ _ U) as Cf. destruct C as [H1 H2 H3 H4]. constructor.
+  - rewrite (ce_store _ _ Cf). exact H1.
+  - rewrite V. exact H2.
+  - intros k x H. rewrite V in H. destruct (H3 _ _ H) as [A B]. rewrite (ce_store _ _ Cf), (ce_okey _ _ Cf).
+    split; [exact A|]. rewrite Same; [exact B|].
+    destruct Hn as [Hn|Hn]; [left; intros ->; apply Hn; eapply in_ids; eauto | right; congruence].
+  - unfold raw_ids. rewrite V. exact H4.
+Qed.
+
+(* ---------- _base_add ---------- *)
+Lemma base_add_spec id s : CoreV s -> In id (store s) -> ~ In id (raw_ids s) ->
+  exists s', _base_add id s = Ok (tt, s') /\ upd s s' /\ focus s' = focus s /\ log s' = log s
+  /\ CoreV s' /\ Permutation (raw_ids s') (id :: raw_ids s)
+  /\ view s' = sl_add (generate (okey s) (attr s id)) id (view s).
+Proof.
+  intros C Hst Hn. unfold _base_add. msimp.
+  destruct (regen_spec (okey s) id s Hst) as (s1 & E1 & U1 & V1 & F1 & L1 & K1 & Same1).
+  rewrite (bind_ok _ _ _ _ _ E1).
+  pose proof (u_cfg _ _ U1) as Cf1.
+  assert (C1 : CoreV s1) by (eapply (CoreV_regen s s1 id (okey s)); eauto).
+  destruct (view_add_spec id s1) as (s2 & E2 & U2 & F2 & L2 & k & V2 & Hk & Hn2).
+  exists s2. split; [exact E2|].
+  assert (Hst1 : In id (store s1)) by (rewrite (ce_store _ _ Cf1); exact Hst).
+  rewrite (ce_okey _ _ Cf1) in *.
+  assert (k = generate (okey s) (attr s id)) by (apply (Hk Hst1 _ K1)). subst k.
+  split; [eapply upd_trans; [exact U1 | apply (um_upd _ _ U2)]|].
+  split; [congruence|]. split; [congruence|].
+  assert (Hn1 : ~ In id (raw_ids s1)) by (unfold raw_ids; rewrite V1; exact Hn).
+  destruct (CoreV_add s1 s2 _ id C1 U2 V2 Hst1 Hn1) as [C2 P2]; [rewrite (ce_okey _ _ Cf1); auto|].
+  split; [exact C2|]. split; [unfold raw_ids in *; rewrite V1 in P2; exact P2|]. rewrite V2, V1. reflexivity.
+Qed.
+
+Lemma FreshV_add s s' id : cfg_eq s s' -> view s' = sl_add (generate (okey s) (attr s id)) id (view s) ->
+  FreshV s -> FreshV s'.
+Proof.
+  intros Cf V H k x Hin. rewrite V in Hin. apply (Permutation_in _ (sl_add_perm _ _ _)) in Hin.
+  rewrite (ce_okey _ _ Cf), (attr_cfg _ _ x Cf). destruct Hin as [Hin|Hin]; [inversion Hin; subst; reflexivity | apply H; exact Hin].
+Qed.
+
 (* ---------- _refilter ---------- *)
 Lemma wanted_cases s x :
   (show_marked s && negb (fmarked (attr s x)) = true -> wanted s x = false) /\
@@ -60,33 +160,34 @@ Lemma wanted_cases s x :
 Proof. unfold wanted. destruct (show_marked s), (fmarked (attr s x)), (fmatches (filt s) (attr s x)); simpl; auto. Qed.
 
 Lemma refilter_spec s : NoDup (store s) ->
-  exists s', _refilter s = Ok (tt, s') /\ updm s s' /\ log s' = log s ++ [ViewRefresh]
-  /\ CoreV s' /\ FocusOk s' /\ M1 s' /\ M2 s' /\ M3 s'.
+  exists s', _refilter s = Ok (tt, s') /\ upd s s' /\ log s' = log s ++ [ViewRefresh]
+  /\ CoreV s' /\ FocusOk s' /\ M1 s' /\ M2 s' /\ M3 s' /\ FreshV s'.
 Proof.
   intros Nd. unfold _refilter. msimp.
   set (s0 := set_view [] s).
-  assert (U0 : updm s s0) by (apply updm_same_settings; [constructor; reflexivity | reflexivity]).
+  assert (U0 : upd s s0) by (apply um_upd, updm_same_settings; [constructor; reflexivity | reflexivity]).
   pose (I := fun (done : list N) (t : state) =>
-    updm s0 t /\ focus t = focus s0 /\ log t = log s0 /\ CoreV t
+    upd s0 t /\ focus t = focus s0 /\ log t = log s0 /\ CoreV t /\ FreshV t
     /\ forall id, In id (raw_ids t) <-> In id done /\ wanted s id = true).
   assert (I0 : I [] s0).
-  { split; [apply updm_refl|]. split; [reflexivity|]. split; [reflexivity|]. split.
+  { split; [apply upd_refl|]. split; [reflexivity|]. split; [reflexivity|]. split; [|split].
     - constructor; simpl; [exact Nd | apply ksorted_nil | intros k id [] | constructor].
+    - intros k id [].
     - intros id. simpl. tauto. }
   destruct (forM_inv
     (fun i => s1 <- gets (fun s1 => s1) ;;
        if show_marked s1 && negb (fmarked (attr s1 i)) then ret tt
        else if fmatches (filt s1) (attr s1 i) then _base_add i else ret tt) I (store s)) with (l := store s) (done := @nil N) (s := s0)
-    as (s1 & E1 & (U1 & F1 & L1 & C1 & Hm)); [|reflexivity|exact I0|].
-  { intros done x rest t Est (Ut & Ft & Lt & Ct & Hids). msimp.
-    pose proof (u_cfg _ _ (um_upd _ _ (updm_trans _ _ _ U0 Ut))) as Cf.
+    as (s1 & E1 & (U1 & F1 & L1 & C1 & Fv1 & Hm)); [|reflexivity|exact I0|].
+  { intros done x rest t Est (Ut & Ft & Lt & Ct & Fvt & Hids). msimp.
+    pose proof (u_cfg _ _ (upd_trans _ _ _ U0 Ut)) as Cf.
     rewrite (attr_cfg _ _ x Cf), (ce_sm _ _ Cf), (ce_filt _ _ Cf).
     destruct (wanted_cases s x) as [W1 W2].
     assert (Hx : ~ In x done).
     { rewrite Est in Nd. apply NoDup_remove_2 in Nd. intros H. apply Nd. apply in_or_app. auto. }
     assert (Skip : I (done ++ [x]) t -> exists s', ret tt t = Ok (tt, s') /\ I (done ++ [x]) s') by (intros HI; exists t; split; [reflexivity | exact HI]).
     assert (Same : wanted s x = false -> I (done ++ [x]) t).
-    { intros W. split; [exact Ut|]. split; [exact Ft|]. split; [exact Lt|]. split; [exact Ct|].
+    { intros W. split; [exact Ut|]. split; [exact Ft|]. split; [exact Lt|]. split; [exact Ct|]. split; [exact Fvt|].
       intros id. rewrite Hids, in_app_iff. simpl. split; [tauto|].
       intros [[H|[H|[]]] Hw]; [tauto | subst; congruence]. }
     destruct (show_marked s && negb (fmarked (attr s x))) eqn:Eb.
@@ -95,9 +196,10 @@ Proof.
       + assert (Hst : In x (store t)).
         { rewrite (ce_store _ _ Cf), Est. apply in_or_app. right. left. reflexivity. }
         assert (Hn : ~ In x (raw_ids t)) by (rewrite Hids; tauto).
-        destruct (base_add_spec x t Ct Hst Hn) as (t' & E & U & F & L & C' & P).
-        exists t'. split; [exact E|]. split; [eapply updm_trans; eauto|].
+        destruct (base_add_spec x t Ct Hst Hn) as (t' & E & U & F & L & C' & P & V').
+        exists t'. split; [exact E|]. split; [eapply upd_trans; eauto|].
         split; [congruence|]. split; [congruence|]. split; [exact C'|].
+        split; [eapply FreshV_add; [apply (u_cfg _ _ U) | exact V' | exact Fvt]|].
         intros id. split.
         * intros H. apply (Permutation_in _ P) in H. rewrite in_app_iff. destruct H as [<-|H].
           { split; [right; left; reflexivity | exact W2]. }
@@ -108,20 +210,40 @@ Proof.
   rewrite (bind_ok _ _ _ _ _ E1).
   destruct (send_view_refresh_spec s1 C1) as (s2 & E2 & X2 & F2).
   exists s2. split; [exact E2|].
-  assert (U : updm s s2) by (eapply updm_trans; [exact U0 | eapply updm_trans; [exact U1 | apply (sn_updm _ _ _ X2)]]).
-  pose proof (u_cfg _ _ (um_upd _ _ U)) as Cf.
+  assert (U : upd s s2) by (eapply upd_trans; [exact U0 | eapply upd_trans; [exact U1 | apply (um_upd _ _ (sn_updm _ _ _ X2))]]).
+  pose proof (u_cfg _ _ U) as Cf.
   split; [exact U|]. split; [rewrite (sn_log _ _ _ X2), L1; reflexivity|].
   split; [eapply sent_CoreV; eauto|]. split; [exact F2|].
   rewrite <- (sent_raw_ids _ _ _ X2) in Hm.
-  split; [|split].
+  split; [|split; [|split]].
   - intros id H. apply Hm in H as [_ H]. rewrite (attr_cfg _ _ id Cf), (ce_filt _ _ Cf).
     unfold wanted in H. apply andb_true_iff in H. tauto.
   - intros id H Hw. apply Hm. rewrite (ce_store _ _ Cf) in H. rewrite (wanted_cfg _ _ id Cf) in Hw. auto.
   - intros Hs id H. apply Hm in H as [_ H]. rewrite (attr_cfg _ _ id Cf). rewrite (ce_sm _ _ Cf) in Hs.
     unfold wanted in H. rewrite Hs in H. apply andb_true_iff in H. simpl in H. tauto.
+  - eapply FreshV_cfg; [apply (u_cfg _ _ (um_upd _ _ (sn_updm _ _ _ X2))) | apply (sn_view _ _ _ X2) | exact Fv1].
 Qed.
 
-(* ---------- set_order: keys of all shown flows under the new order ---------- *)
+(* ---------- set_order: regenerate, then read, the keys of all shown flows under the new order ---------- *)
+Lemma regen_all o ids : forall s done, (forall id, In id ids -> In id (store s)) ->
+  (forall id, In id done -> cache_of s id o = Some (generate o (attr s id))) ->
+  exists s', forM ids (regen o) s = Ok (tt, s') /\ upd s s' /\ view s' = view s /\ focus s' = focus s /\ log s' = log s
+  /\ forall id, In id done \/ In id ids -> cache_of s' id o = Some (generate o (attr s id)).
+Proof.
+  induction ids as [|x t IH]; intros s done Hst Hd; simpl.
+  - exists s. split; [reflexivity|]. split; [apply upd_refl|]. repeat split; try reflexivity.
+    intros id [H|[]]. auto.
+  - destruct (regen_spec o x s (Hst x (or_introl eq_refl))) as (s1 & E1 & U1 & V1 & F1 & L1 & K1 & Same1).
+    rewrite (bind_ok _ _ _ _ _ E1). pose proof (u_cfg _ _ U1) as Cf1.
+    destruct (IH s1 (x :: done)) as (s2 & E2 & U2 & V2 & F2 & L2 & K2).
+    { intros id H. rewrite (ce_store _ _ Cf1). apply Hst. right. exact H. }
+    { intros id [<-|H]; rewrite (attr_cfg _ _ _ Cf1); [exact K1|].
+      destruct (N.eq_dec id x) as [->|Hne]; [exact K1 | rewrite Same1; auto]. }
+    exists s2. split; [exact E2|]. split; [eapply upd_trans; eauto|].
+    split; [congruence|]. split; [congruence|]. split; [congruence|].
+    intros id H. rewrite <- (attr_cfg _ _ id Cf1). apply K2. simpl. tauto.
+Qed.
+
 Lemma mapM_keys o ids s : (forall id, In id ids -> In id (store s)) ->
   exists kv s', mapM (fun id => k <- okey_call o id ;; ret (k, id)) ids s = Ok (kv, s') /\ ext s s'
   /\ map snd kv = ids /\ forall k id, In (k, id) kv -> cache_of s' id o = Some k.
@@ -140,42 +262,24 @@ Proof.
     apply (um_mono _ _ (e_updm _ _ X2)). apply Hk. apply Hst. left. reflexivity.
 Qed.
 
-(* ---------- overwriting one cached key with the current one (refresh) ---------- *)
-Lemma upd_cache_set s id o c : In id (store s) -> sget (settings s) id = Some c ->
-  let s' := set_settings (sset (settings s) id (cset o (generate o (attr s id)) c)) s in
-  upd s s' /\ (forall id' o', id' <> id -> cache_of s' id' o' = cache_of s id' o')
-  /\ cache_of s' id o = Some (generate o (attr s id)).
-Proof.
-  intros Hst Es s'. split; [|split].
-  - constructor.
-    + constructor; reflexivity.
-    + intros id' o' k. unfold s'. rewrite cache_of_sset. destruct (N.eqb id id') eqn:E; [|auto].
-      apply N.eqb_eq in E. subst id'. rewrite cget_cset. destruct (order_eqb o' o) eqn:E2.
-      * apply order_eqb_eq in E2. subst. intros [= <-]. auto.
-      * unfold cache_of. rewrite Es. auto.
-    + intros id' H. unfold settings_ids, s' in H. simpl in H. apply sset_ids in H. destruct H as [->|H]; auto.
-  - intros id' o' Hne. unfold s'. rewrite cache_of_sset.
-    destruct (N.eqb id id') eqn:E; [apply N.eqb_eq in E; congruence | reflexivity].
-  - unfold s'. rewrite cache_of_sset, N.eqb_refl, cget_cset.
-    replace (order_eqb o o) with true by (symmetry; apply order_eqb_eq; reflexivity). reflexivity.
-Qed.
-
 Lemma NoDup_ids_split (l1 l2 : list (N * N)) k id :
   NoDup (map snd (l1 ++ (k, id) :: l2)) -> ~ In id (map snd (l1 ++ l2)) /\ NoDup (map snd (l1 ++ l2)).
 Proof.
   rewrite !map_app. simpl. intros H. split; [apply NoDup_remove_2 in H; exact H | apply NoDup_remove_1 in H; exact H].
 Qed.
 
+(* ---------- _OrderKey.refresh ---------- *)
 Lemma okey_refresh_spec id s : CoreV s -> In id (raw_ids s) -> FocusOk s ->
   exists s', okey_refresh (okey s) id s = Ok (tt, s') /\ upd s s' /\ CoreV s'
   /\ Permutation (raw_ids s') (raw_ids s) /\ FocusOk s'
   /\ (log s' = log s \/ log s' = log s ++ [ViewRefresh])
-  /\ cache_of s' id (okey s) = Some (generate (okey s) (attr s id)).
+  /\ (forall k x, In (k, x) (view s') ->
+        (x = id /\ k = generate (okey s) (attr s id)) \/ (x <> id /\ In (k, x) (view s))).
 Proof.
   intros C Hin Fo. unfold okey_refresh.
   destruct (in_ids_split _ _ Hin) as [kold Hin0].
   destruct (c_cached _ C _ _ Hin0) as [Hst Hk].
-  destruct (settings_getitem_spec id s Hst) as (c & s1 & E1 & X1 & Hs1 & Hc1).
+  destruct (settings_getitem_spec id s Hst) as (c & s1 & E1 & X1 & Hs1 & Hc1 & _).
   rewrite (bind_ok _ _ _ _ _ E1). rewrite Hc1, Hk. msimp.
   pose proof (u_cfg _ _ (um_upd _ _ (e_updm _ _ X1))) as Cf1.
   rewrite (attr_cfg _ _ id Cf1).
@@ -185,59 +289,55 @@ Proof.
     split; [exact C1|]. split; [unfold raw_ids; rewrite (e_view _ _ X1); reflexivity|].
     split; [eapply FocusOk_eq; [apply (e_view _ _ X1) | apply (e_focus _ _ X1) | exact Fo]|].
     split; [left; apply (e_log _ _ X1)|].
-    rewrite <- Eq. apply (um_mono _ _ (e_updm _ _ X1)). exact Hk.
+    intros k x H. rewrite (e_view _ _ X1) in H. destruct (N.eq_dec x id) as [->|Hne]; [left | right; auto].
+    split; [reflexivity|]. destruct (c_cached _ C _ _ H) as [_ Hk']. congruence.
   - assert (Hin1 : In id (raw_ids s1)) by (unfold raw_ids; rewrite (e_view _ _ X1); exact Hin).
     destruct (view_remove_spec id s1 C1 Hin1) as (s2 & E2 & U2 & F2 & L2 & k2 & l1 & l2 & V1 & V2).
     rewrite (bind_ok _ _ _ _ _ E2).
     pose proof (u_cfg _ _ (um_upd _ _ U2)) as Cf2.
-    assert (Hst2 : In id (store s2)) by (rewrite (ce_store _ _ Cf2), (ce_store _ _ Cf1); exact Hst).
-    destruct (settings_getitem_spec id s2 Hst2) as (c' & s3 & E3 & X3 & Hs3 & Hc3).
-    rewrite (bind_ok _ _ _ _ _ E3). msimp.
-    pose proof (u_cfg _ _ (um_upd _ _ (e_updm _ _ X3))) as Cf3.
-    assert (Hst3 : In id (store s3)) by (rewrite (ce_store _ _ Cf3); exact Hst2).
-    assert (A3 : attr s3 id = attr s id).
-    { rewrite (attr_cfg _ _ id Cf3), (attr_cfg _ _ id Cf2), (attr_cfg _ _ id Cf1). reflexivity. }
-    assert (O3 : okey s3 = okey s) by (rewrite (ce_okey _ _ Cf3), (ce_okey _ _ Cf2), (ce_okey _ _ Cf1); reflexivity).
-    destruct (upd_cache_set s3 id (okey s) c' Hst3 Hs3) as (U4 & Same4 & New4).
-    rewrite A3 in *.
-    set (s4 := set_settings (sset (settings s3) id (cset (okey s) (generate (okey s) (attr s id)) c')) s3) in *.
-    (* the list without id is a consistent sorted list in s4 *)
-    assert (V4 : view s4 = l1 ++ l2) by (simpl; rewrite (e_view _ _ X3); exact V2).
+    assert (Cf02 : cfg_eq s s2) by (eapply cfg_eq_trans; eauto).
+    assert (Hst2 : In id (store s2)) by (rewrite (ce_store _ _ Cf02); exact Hst).
     assert (Nd1 : NoDup (map snd (l1 ++ (k2, id) :: l2))) by (rewrite <- V1; apply (c_nodup _ C1)).
     destruct (NoDup_ids_split _ _ _ _ Nd1) as [Hnid Nd4].
-    assert (U14 : upd s1 s4).
-    { eapply upd_trans; [apply (um_upd _ _ U2) | eapply upd_trans; [apply (um_upd _ _ (e_updm _ _ X3)) | exact U4]]. }
-    assert (C4 : CoreV s4).
+    assert (C2 : CoreV s2).
     { constructor.
-      - rewrite (ce_store _ _ (u_cfg _ _ U14)). apply (c_store _ C1).
-      - rewrite V4. apply (ksorted_app_remove l1 (k2, id) l2). rewrite <- V1. apply (c_sorted _ C1).
-      - intros k' id' H. rewrite V4 in H.
-        assert (H1 : In (k', id') (view s1)).
-        { rewrite V1. apply in_app_iff in H. apply in_or_app. simpl. tauto. }
-        destruct (c_cached _ C1 _ _ H1) as [A B].
-        rewrite (ce_store _ _ (u_cfg _ _ U14)), (ce_okey _ _ (u_cfg _ _ U14)). split; [exact A|].
-        assert (id' <> id) by (intros ->; apply Hnid; eapply in_ids; eauto).
-        rewrite Same4 by assumption.
-        apply (um_mono _ _ (e_updm _ _ X3)), (um_mono _ _ U2). exact B.
-      - unfold raw_ids. rewrite V4. exact Nd4. }
+      - rewrite (ce_store _ _ Cf2). apply (c_store _ C1).
+      - rewrite V2. apply (ksorted_app_remove l1 (k2, id) l2). rewrite <- V1. apply (c_sorted _ C1).
+      - intros k' id' H. rewrite V2 in H.
+        assert (H1 : In (k', id') (view s1)) by (rewrite V1; apply in_app_iff in H; apply in_or_app; simpl; tauto).
+        destruct (c_cached _ C1 _ _ H1) as [A B]. rewrite (ce_store _ _ Cf2), (ce_okey _ _ Cf2).
+        split; [exact A | apply (um_mono _ _ U2); exact B].
+      - unfold raw_ids. rewrite V2. exact Nd4. }
+    assert (Hn2 : ~ In id (raw_ids s2)) by (unfold raw_ids; rewrite V2; exact Hnid).
+    destruct (settings_getitem_spec id s2 Hst2) as (c' & s3 & E3 & X3 & Hs3 & Hc3 & Same3).
+    rewrite (bind_ok _ _ _ _ _ E3). msimp.
+    destruct (setkey_facts (okey s) id (generate (okey s) (attr s id)) c' s2 s3 Hst2 X3 Hs3 Hc3 Same3) as (U4 & K4 & Same4).
+    { rewrite (attr_cfg _ _ id Cf02). reflexivity. }
+    set (s4 := set_settings (sset (settings s3) id (cset (okey s) (generate (okey s) (attr s id)) c')) s3) in *.
+    assert (V4 : view s4 = l1 ++ l2) by (simpl; rewrite (e_view _ _ X3); exact V2).
+    assert (C4 : CoreV s4).
+    { apply (CoreV_regen s2 s4 id (okey s) C2 U4); [simpl; apply (e_view _ _ X3) | exact Same4 | left; exact Hn2]. }
+    pose proof (u_cfg _ _ U4) as Cf4. assert (Cf04 : cfg_eq s s4) by (eapply cfg_eq_trans; eauto).
     destruct (view_add_spec id s4) as (s5 & E5 & U5 & F5 & L5 & k5 & V5 & Hk5 & Hn5).
     rewrite (bind_ok _ _ _ _ _ E5).
-    assert (O4 : okey s4 = okey s) by exact O3.
-    assert (Hst4 : In id (store s4)) by exact Hst3.
-    rewrite O4 in *.
-    assert (k5 = generate (okey s) (attr s id)) by (apply (Hk5 Hst4 _ New4)). subst k5.
+    assert (Hst4 : In id (store s4)) by (rewrite (ce_store _ _ Cf04); exact Hst).
+    rewrite (ce_okey _ _ Cf04) in *.
+    assert (k5 = generate (okey s) (attr s id)) by (apply (Hk5 Hst4 _ K4)). subst k5.
     assert (Hn4 : ~ In id (raw_ids s4)) by (unfold raw_ids; rewrite V4; exact Hnid).
-    destruct (CoreV_add s4 s5 _ id C4 U5 V5 Hst4 Hn4) as [C5 P5]; [rewrite O4; auto|].
+    destruct (CoreV_add s4 s5 _ id C4 U5 V5 Hst4 Hn4) as [C5 P5]; [rewrite (ce_okey _ _ Cf04); auto|].
     destruct (send_view_refresh_spec s5 C5) as (s6 & E6 & X6 & F6).
     exists s6. split; [exact E6|].
     assert (U : upd s s6).
-    { eapply upd_trans; [apply (um_upd _ _ (e_updm _ _ X1))|].
-      eapply upd_trans; [exact U14|]. eapply upd_trans; [apply (um_upd _ _ U5) | apply (um_upd _ _ (sn_updm _ _ _ X6))]. }
+    { eapply upd_trans; [apply (um_upd _ _ (e_updm _ _ X1))|]. eapply upd_trans; [apply (um_upd _ _ U2)|].
+      eapply upd_trans; [exact U4|]. eapply upd_trans; [apply (um_upd _ _ U5) | apply (um_upd _ _ (sn_updm _ _ _ X6))]. }
     split; [exact U|]. split; [eapply sent_CoreV; eauto|].
     split.
     { rewrite (sent_raw_ids _ _ _ X6). rewrite P5. unfold raw_ids. rewrite V4.
       rewrite <- (e_view _ _ X1), V1. rewrite !map_app. simpl. apply Permutation_middle. }
     split; [exact F6|]. split.
     { right. rewrite (sn_log _ _ _ X6), L5. simpl. rewrite (e_log _ _ X3), L2, (e_log _ _ X1). reflexivity. }
-    apply (um_mono _ _ (sn_updm _ _ _ X6)). apply Hn5. exact Hst4.
+    intros k x H. rewrite (sn_view _ _ _ X6), V5, V4 in H. apply (Permutation_in _ (sl_add_perm _ _ _)) in H.
+    destruct H as [H|H]; [inversion H; subst; left; auto|]. right.
+    split; [intros ->; apply Hnid; eapply in_ids; eauto|].
+    rewrite <- (e_view _ _ X1), V1. apply in_app_iff in H. apply in_or_app. simpl. tauto.
 Qed.
